@@ -23,7 +23,21 @@ def check_setter(body, field, rep_add):
         rep_add("R38a", "setter has one value parameter", False, "arg_count=%d" % m.arg_count)
         return 0
     param = 2
-    ana = SubjectAnalysis(m, lambda e: e == ("param", param, ()), body=body)
+    # a verdict stored first (`let v = if in_range { Ok(()) } else { Err(..) }; v?;`) splits the setter into scenarios whose results are united
+    from rules.common import FnCtx, carrier_scenarios
+
+    class _Union:
+        def __init__(self, parts):
+            self.parts = parts
+            self.relevant_conds = sorted({c for p in parts for c in p.relevant_conds})
+
+        def at(self, bb):
+            r = ISet.empty()
+            for p in self.parts:
+                r = r.union(p.at(bb))
+            return r
+    ana = _Union([SubjectAnalysis(m, lambda e: e == ("param", param, ()), body=body, removed_blocks=rb, removed_edges=re_)
+                  for rb, re_ in carrier_scenarios(FnCtx(body))])
     want = ISet([(LO, HI)])
     stores = 0
     for bb, i, s in m.stmts():
